@@ -144,6 +144,16 @@ Theorem C15_aggregate_sorted_from_zero : forall borders (rs : list blockres),
 Proof. exact aggregate_sorted_from_zero_b. Qed.
 Print Assumptions C15_aggregate_sorted_from_zero.
 
+Example C15_aggregate_example :
+  let rs := [([[0; 1]; [1; 0]], [(1%nat, false)]); ([[1; 1]], []);
+             ([[0; 1]; [1; 0]; [0; 1]], [(0%nat, true); (2%nat, false)])] in
+  forallb (fun r : blockres => negb (Nat.eqb (length (fst r)) 0) && nondecN (map fst (snd r)) &&
+                               forallb (fun b : bp => (fst b <? length (fst r))%nat) (snd r)) rs = true /\
+  aggregate [] rs = ([[0; 1]; [1; 0]; [1; 1]; [0; 1]; [1; 0]; [0; 1]],
+                     [(0, true); (1, false); (2, true); (3, true); (3, true); (5, false)]%nat) /\
+  snd (aggregate [3%nat] rs) = [(0, true); (1, false); (3, true); (3, true); (5, false)]%nat.
+Proof. vm_compute. repeat split; reflexivity. Qed.
+
 (* compute_cut_positions: for every sensitivity and every outcome `dec` of the float threshold test the cuts are
    strictly increasing, start with 0, and are breakpoint positions *)
 Theorem C15_cuts_sorted_start_at_zero : forall sens dec rest,
@@ -209,3 +219,35 @@ Example C15_sample_example :
   = Some ([([0; 1; 1], false, None); ([0; 1; 1], true, Some 11); ([1; 0; 1], true, Some 11);
            ([0; 1; 1], false, Some 3); ([1; 1; 0], true, Some 31); ([0; 0; 2], true, Some 31)], true).
 Proof. vm_compute. reflexivity. Qed.
+
+(* Everything composed for one processed sample, PARTIAL in the sense of C15_force_genotypes_conforms_partial
+   (the envelope without the keep-the-given-configuration fall-back): whatever clustering, threading, likelihoods,
+   ILP and threshold tests do - any matrix cols in the pipeline envelope for the genotypes gs of the read-covered
+   heterozygous variants acc, any sorted breakpoint list starting with the zero-confidence breakpoint at 0 (what
+   aggregate_results returns, C15_aggregate_sorted_from_zero) with positions inside acc, any sensitivity and any
+   outcome dec of the threshold tests - the written calls of the sample satisfy the property's per-sample predicate:
+   genotype clause for every call and phase sets = disjoint intervals of acc named by their first variant. *)
+Theorem C15_polyphase_sample_partial : forall d k acc gs cols rest sens dec (recs : list inrec),
+  SolvesN AlwaysCandidate d k gs cols -> Forall (fun g => length g = k) gs ->
+  strictly_incZ acc = true -> length acc = length gs ->
+  nondecN (map fst ((0%nat, true) :: rest)) = true ->
+  Forall (fun b => (fst b < length acc)%nat) ((0%nat, true) :: rest) ->
+  (forall p a g r, nth_error acc p = Some a -> nth_error gs p = Some g -> In r recs -> fst (fst r) = a ->
+      Permutation (snd (fst r)) g /\ is_het g = true /\ ~ In undet g /\ g <> []) ->
+  exists outs, sample_out acc cols (compute_cuts sens dec ((0%nat, true) :: rest)) recs = Some outs /\
+               sample_okb (map (fun a => a + 1) acc) (obs_of_model recs outs) = true.
+Proof. exact polyphase_sample_ok. Qed.
+Print Assumptions C15_polyphase_sample_partial.
+
+(* non-vacuity of the envelope hypothesis: a two-block instance (one singleton block, one general block with a forced
+   position and a non-identity assignment) is in the envelope *)
+Example C15_envelope_example :
+  SolvesN AlwaysCandidate 1 3 [[0; 1; 1]; [0; 0; 1]; [0; 1; 2]] [[0; 1; 1]; [0; 1; 0]; [2; 1; 0]].
+Proof.
+  cbn [SolvesN]. exists [([[0; 1; 1]], [[0; 1; 1]]); ([[0; 0; 1]; [0; 1; 2]], [[0; 1; 0]; [2; 1; 0]])].
+  split; [reflexivity |]. split; [reflexivity |]. constructor; [| constructor; [| constructor]].
+  - left. exists [0; 1; 1]. split; reflexivity.
+  - right. exists [[0; 1; 0]; [1; 1; 2]], [[0; 1; 0]; [1; 0; 2]], [], [[0; 1; 0]; [1; 0; 2]], [1%nat],
+                  [[0; 1; 2]%nat; [2; 0; 1]%nat].
+    repeat split; try reflexivity; repeat constructor.
+Qed.
